@@ -32,6 +32,7 @@ func (e *Exec) builtin(fr *frame, st *State, c *ssa.CallCommon, b *ssa.Builtin, 
 	case "copy":
 		return e.copyB(st, c, args, where), true
 	case "delete":
+		e.guardMapWrite(fr, st, c.Args[0], where)
 		mt := c.Args[0].Type().Underlying().(*types.Map)
 		m := e.asTerm(st, args[0], c.Args[0].Type())
 		k := e.asTerm(st, args[1], c.Args[1].Type())
